@@ -32,6 +32,17 @@ def raw_entries() -> list[dict]:
     return out
 
 
+def raw_entries_full() -> list[dict]:
+    out = []
+    for f in sorted((package_dir() / "bank_registry").glob("*.json")):
+        doc = json.loads(f.read_text(encoding="utf-8"))
+        if isinstance(doc, list):
+            for e in doc:
+                out.append({"cc": e.get("country_code", ""), "code": e.get("bank_code", ""),
+                            "primary": bool(e.get("primary")), "bic": e.get("bic") or ""})
+    return out
+
+
 def model(ctx: Ctx) -> None:
     n = 3
     cfg = tlc.write_cfg(ctx.wd / "MC_Lookup.cfg", (SPEC / "MC_Lookup.cfg").read_text().splitlines())
@@ -140,6 +151,19 @@ def run(ctx: Ctx) -> dict:
                     continue
             iban = cc + gen.check_digits(cc, placed) + placed
             ops.append({"op": "iban.bank", "t": cps(iban)})
+    # keys with several entries of mixed primary flags whose first listed entry is not primary
+    seen = {}
+    for e in raw_entries_full():
+        seen.setdefault((e["cc"], e["code"]), []).append(e)
+    mixed = [k for k, es in seen.items() if len(es) > 1 and len({x["primary"] for x in es}) > 1]
+    for cc, code in sorted(mixed)[:: max(1, len(mixed) // (40 if ctx.quick else 400))]:
+        row = table.get(cc)
+        if row is None or gen.row_classes(row) is None:
+            continue
+        placed = place_key(row, gen.bban_for(row, rng), code)
+        if placed:
+            ops.append({"op": "iban.bank", "t": cps(cc + gen.check_digits(cc, placed) + placed)})
+            ops.append({"op": "bic.lookup", "cc": cps(cc), "code": cps(code)})
     for cc in ("AO", "NL", "XX"):   # countries without banks / unknown
         row = table.get(cc)
         if row:
